@@ -653,6 +653,14 @@ impl<W: Write + io::Seek> ZipWriter<W> {
         let data_start = file.data_start.get_mut();
 
         if !self.writing_to_central_extra_field_only {
+            // A failed switch to the entry's compression method (e.g. an unsupported level) leaves
+            // the writer closed while the extra-data mode is still on.
+            if self.inner.is_closed() {
+                return Err(ZipError::Io(io::Error::new(
+                    io::ErrorKind::BrokenPipe,
+                    "ZipWriter was already closed",
+                )));
+            }
             let writer = self.inner.get_plain();
 
             // Append extra data to local file header and keep it for central file header.
